@@ -19,7 +19,7 @@ OPTS = {
 }
 ASSUMPTIONS = ["full-rank inputs given by their SVD (onto all matrices whose singular vectors are in the listed bases); LAPACK svd returns the registered "
                "factors with singular values descending; lstsq is the exact minimum-norm least-squares solution",
-               "Lanczos SVD only for 2x3 / 3x2 operators with a start vector that puts the small Gram matrix in Lanczos form (Krylov dimension 2); LOBPCG SVD and pinv through CG on the normal equations are outside"]
+               "Lanczos SVD only for 2x3 / 3x2 operators with a start vector that puts the small Gram matrix in Lanczos form (Krylov dimension 2); LOBPCG SVD is outside; pinv through CG: right-hand sides of symbolic scale along fixed generic directions, well-scaled data (singular values and scales in [1e-2, 1e2], ||A^H b|| >= 1e-3 ||b||), rational bases for min(m, n) > 1"]
 
 
 def _svdmod():
@@ -32,14 +32,14 @@ def _pinvmod():
     return importlib.import_module("cola.linalg.inverse.pinv")
 
 
-def make(T, m, n, complex_):
+def make(T, m, n, complex_, concrete_bases=False):
     dt = 'complex128' if complex_ else 'float64'
     r = min(m, n)
 
     def base(k, name, variant):
         if k == 1:
             return K.eye_like(T, 1, dt)
-        if k == 2 and not complex_:
+        if k == 2 and not complex_ and not concrete_bases:
             return K.cayley2_symbolic(T, name, flip=bool(variant), dtype=dt)
         return K.basis(T, k, variant, complex_, dt)
 
@@ -122,17 +122,52 @@ def case_svd_lanczos(T, wide, complex_, k):
     T.eq(f"{tag}:U Sigma V^H == best rank-{k} approximation", Ud @ Sd @ np.conjugate(Vd).T, want, dtype=False)
 
 
-def case_pinv(T, m, n, complex_, algs, rhs_complex=False):
-    dt, A, U0, V0, sig, r = make(T, m, n, complex_)
+def case_pinv(T, m, n, complex_, algs, rhs_complex=False, cg_iters=None):
+    dt, A, U0, V0, sig, r = make(T, m, n, complex_, concrete_bases=("CG" in algs and min(m, n) > 1))
     P_ = _pinvmod()
     Aop = ops.Dense(A)
     z = K.S(T, 0)
     Sinv = K.mat(T, [[(1 / sig[i]) if i == j else z for j in range(m)] for i in range(n)], dt)
     Aplus = V0 @ Sinv @ np.conjugate(U0).T
     bdt = 'complex128' if (complex_ or rhs_complex) else 'float64'
-    b = T.arr("b", (m, ), bdt)
-    B = T.arr("B", (m, 2), bdt)
+    if "CG" in algs:
+        # CG has absolute guards (1e-40 denominators, tol relative to ||b||): well-scaled data, right-hand sides of symbolic scale along fixed
+        # generic directions
+        from fractions import Fraction as Fr
+        dirs = [[Fr(1), Fr(-2, 3), Fr(3, 5)][:m], [Fr(-1, 2), Fr(1), Fr(2, 7)][:m]]
+        sc = [T.var("s0", positive=True), T.var("s1", positive=True)]
+        for x in sc + sig:
+            T.assume(x >= 1e-2)
+            T.assume(x <= 1e2)
+        cols = [K.mat(T, [[sc[j] * K.cst(T, dirs[j][i], (dirs[1 - j][i] / 2) if bdt[0] == 'c' else 0) for i in range(m)]], bdt)[0] for j in range(2)]
+        b = cols[0]
+        B = K.mat(T, [[_it(T, cols[0][i]), _it(T, cols[1][i])] for i in range(m)], bdt)
+        for c in cols:
+            # the right-hand side is not (nearly) orthogonal to the range of A: ||A^H b|| >= 1e-3 ||b||
+            g = np.conjugate(A).T @ c
+            T.assume((np.conjugate(g) @ g).real >= 1e-6 * (np.conjugate(c) @ c).real)
+    else:
+        b = T.arr("b", (m, ), bdt)
+        B = T.arr("B", (m, 2), bdt)
     for an in algs:
+        if an == "CG":
+            # pinv through CG on the normal equations: (inv_CG(A^H A) + c I) A^H with the library's regulariser c = eps * max(shape); the
+            # exact-arithmetic value is A^+ b + c A^H b (the second term is at rounding level), CG run to the Krylov dimension
+            from cola.linalg.inverse.cg import CG
+            Pinv = P_.pinv(Aop, CG(max_iters=cg_iters or (r + 2), tol=1e-10))
+            AH = np.conjugate(A).T
+            T.check(f"pinv({an}):shape", tuple(Pinv.shape) == (n, m), f"{Pinv.shape}")
+            X = Pinv @ B
+            T.check(f"pinv({an}) @ B:shape", tuple(X.shape) == (n, 2), f"{X.shape}")
+            for tag, x, c in ((f"pinv({an}) @ b", Pinv @ b, b), (f"pinv({an}) @ B[:,0]", X[:, 0], cols[0]), (f"pinv({an}) @ B[:,1]", X[:, 1], cols[1])):
+                # the library regularises at rounding level (its eps * max(shape)); the claim is the minimum-norm least-squares solution up to
+                # a relative 1e-9:  ||x - A^+ b||^2 <= 1e-18 (||A^+ b||^2 + ||A^H b||^2)
+                d = x - Aplus @ c
+                ref = Aplus @ c
+                g = AH @ c
+                nd, nr, ng = (np.conjugate(d) @ d).real, (np.conjugate(ref) @ ref).real, (np.conjugate(g) @ g).real
+                T.true(f"{tag} == A^+ b up to a relative 1e-9", [nd <= 1e-18 * (nr + ng)])
+            continue
         Pinv = P_.pinv(Aop) if an == "default" else P_.pinv(Aop, {"Auto": cola.linalg.Auto(), "LSTSQ": P_.LSTSQ()}[an])
         T.check(f"pinv({an}):shape", tuple(Pinv.shape) == (n, m), f"{Pinv.shape}")
         T.eq(f"pinv({an}) @ b == A^+ b", Pinv @ b, Aplus @ b, dtype=False)
@@ -140,6 +175,13 @@ def case_pinv(T, m, n, complex_, algs, rhs_complex=False):
         x = Pinv @ b
         # least-squares optimality and minimum norm, stated directly: A^H (A x - b) == 0 and x in range(A^H)
         T.eq(f"pinv({an}):normal equations", np.conjugate(A).T @ (A @ x - b), K.zeros_like_mode(T, (n, ), bdt), dtype=False)
+
+
+def _it(T, x):
+    if T.sym:
+        from symx.array import SymArray
+        return x.raw.item() if isinstance(x, SymArray) else x
+    return complex(x) if np.iscomplexobj(x) else float(x)
 
 
 def case_pinv_rules(T, kind):
@@ -180,6 +222,9 @@ def cases(tier, seed):
         out.append((f"svd-complex:{m}x{n}", case_svd, dict(m=m, n=n, complex_=True, algs=["DenseSVD"])))
         out.append((f"pinv-complex:{m}x{n}", case_pinv, dict(m=m, n=n, complex_=True, algs=["default"])))
         out.append((f"pinv-real-A-complex-b:{m}x{n}", case_pinv, dict(m=m, n=n, complex_=False, algs=["default"], rhs_complex=True)))
+    for (m, n) in [(2, 1), (1, 2), (2, 2), (3, 2), (2, 3)]:
+        out.append((f"pinv-cg:{m}x{n}", case_pinv, dict(m=m, n=n, complex_=False, algs=["CG"])))
+    out.append(("pinv-cg-complex:2x2", case_pinv, dict(m=2, n=2, complex_=True, algs=["CG"])))
     for wide in (True, False):
         for cx in (False, True):
             for k in (1, 2):
@@ -190,5 +235,5 @@ def cases(tier, seed):
 
 
 BOUNDS = dict(shapes="2x2, 3x2, 2x3, 3x3, 1x2, 2x1 real; 2x2, 3x2, 2x3 complex; real A with complex right-hand sides", algorithms="svd: Auto(), DenseSVD(); "
-              "pinv: default, Auto(), LSTSQ(), Identity / ScalarMul / Diagonal / Permutation rules", values="singular values, rotation parameters, right-hand "
+              "pinv: default, Auto(), LSTSQ(), CG(), Identity / ScalarMul / Diagonal / Permutation rules", values="singular values, rotation parameters, right-hand "
               "sides symbolic")
